@@ -34,8 +34,39 @@ def add(name, props, note=""):
     json.dump({"name": name, "props": props.split(","), "note": note, "edits": edits}, open(os.path.join(MUT, name + ".json"), "w"), indent=1)
     print("added", name, len(edits), "edit(s)")
 
+ONLY_PROP = None
+
+def run_seed(path, repo="/repo"):
+    """A seeded change (/verif/seeded/<id>/patch.diff) applied to a scratch copy with patch(1)."""
+    meta = json.load(open(os.path.join(path, "meta.json")))
+    name = "seeded:" + meta["id"]
+    props = meta["breaks_property"].split(",")
+    if ONLY_PROP:
+        props = [p for p in props if p == ONLY_PROP]
+    d = tempfile.mkdtemp(prefix="astisub-seed-")
+    try:
+        dst = os.path.join(d, "repo")
+        shutil.copytree(repo, dst, ignore=shutil.ignore_patterns(".git"))
+        r = subprocess.run(["patch", "-p1", "-s", "--no-backup-if-mismatch", "-i", os.path.join(path, "patch.diff")], cwd=dst, capture_output=True, text=True)
+        if r.returncode != 0:
+            return name, "skipped", "patch no longer applies to the current tree"
+        res, ok = [], True
+        for prop in props:
+            r = subprocess.run([os.path.join(ROOT, "bin", "astisubcheck"), "-prop", prop, "-repo", dst, "-verif", ROOT, "-noevidence"], env=ENV, capture_output=True, text=True)
+            fired = r.returncode != 0 and ("VIOLATION property=" + prop) in r.stdout
+            first = next((l for l in r.stdout.splitlines() if l.startswith("FAIL")), "")
+            res.append(f"{prop}:{'detected' if fired else 'missed'} {first[:140]}")
+            ok = ok and fired
+        return name, "detected" if ok else "missed", " | ".join(res)
+    finally:
+        shutil.rmtree(d, ignore_errors=True)
+
 def run_one(path, repo="/repo", build_check=True):
+    if os.path.isdir(path):
+        return run_seed(path, repo)
     m = json.load(open(path))
+    if ONLY_PROP:
+        m["props"] = [p for p in m["props"] if p == ONLY_PROP]
     for e in m["edits"]:
         if open(os.path.join(repo, e["file"])).read().count(e["old"]) != 1:
             return m["name"], "skipped", f"pattern no longer matches {e['file']} exactly once: {e['old'][:50]!r}"
@@ -76,20 +107,41 @@ def main():
     if len(sys.argv) >= 4 and sys.argv[1] == "add":
         return add(sys.argv[2], sys.argv[3], " ".join(sys.argv[4:]))
     if len(sys.argv) >= 2 and sys.argv[1] == "run":
+        global ONLY_PROP
         args = sys.argv[2:]
-        jobs = 8
-        if args[:1] == ["-j"]:
-            jobs = int(args[1]); args = args[2:]
+        jobs, evidence = 8, None
+        while args and args[0] in ("-j", "--prop", "--evidence"):
+            if args[0] == "-j":
+                jobs = int(args[1])
+            elif args[0] == "--prop":
+                ONLY_PROP = args[1]
+            else:
+                evidence = args[1]
+            args = args[2:]
         paths = sorted(glob.glob(os.path.join(MUT, "*.json")))
         if args:
             paths = [p for p in paths if os.path.basename(p)[:-5] in args]
-        bad = 0
+        else:
+            paths += sorted(p.rstrip("/") for p in glob.glob(os.path.join(ROOT, "seeded", "*/")))
+        if ONLY_PROP:
+            def wants(p):
+                if os.path.isdir(p):
+                    return ONLY_PROP in json.load(open(os.path.join(p, "meta.json")))["breaks_property"].split(",")
+                return ONLY_PROP in json.load(open(p))["props"]
+            paths = [p for p in paths if wants(p)]
+        bad, outcomes = 0, {}
         with concurrent.futures.ThreadPoolExecutor(jobs) as ex:
             for name, outcome, detail in ex.map(run_one, paths):
                 print(f"SELFTEST mutant={name} {outcome} {detail}")
+                outcomes[outcome] = outcomes.get(outcome, 0) + 1
                 if outcome in ("missed", "invalid"):
                     bad += 1
-        print(f"SELFTEST summary mutants={len(paths)} bad={bad}")
+        print(f"SELFTEST summary mutants={len(paths)} bad={bad} {outcomes}")
+        if evidence and os.path.exists(evidence):
+            ev = json.load(open(evidence))
+            ev["coverage"]["selftest"] = {"variants_of_repo_analysed": len(paths), "outcomes": outcomes,
+                "rule": "each stored mutation / seeded change is applied to a scratch copy of the current /repo; the check must fail there (ok_* variants must stay quiet); a missed one fails the thorough run as a broken checker, never as a property violation"}
+            json.dump(ev, open(evidence, "w"), indent=1)
         sys.exit(1 if bad else 0)
     sys.exit(__doc__)
 
